@@ -964,6 +964,13 @@ def wire_expr(node, top=False):
             if body is not None and src is not None:
                 return [Atom('gen'), body, a.args[0].arg, src]
         return None
+    if isinstance(node, ast.Lambda):
+        a = node.args
+        if len(a.args) == 1 and not (a.posonlyargs or a.kwonlyargs or a.vararg or a.kwarg or a.defaults):
+            body = wire_expr(node.body)
+            if body is not None:
+                return [Atom('lam'), a.args[0].arg, body]
+        return None
     if isinstance(node, ast.BinOp) and isinstance(node.op, ast.Mod) and isinstance(node.left, ast.Constant) \
             and isinstance(node.left.value, str):
         if isinstance(node.right, ast.Tuple):
@@ -998,6 +1005,28 @@ def wire_expr(node, top=False):
         a = wire_expr(node.args[0])
         return None if a is None else [Atom('call'), node.func.id, a]
     return None
+
+
+def wire_suite(node):
+    """the suite of an EXEC event -> wire, for the one shape the model has: a module that is one generator function
+    `def name():` / `for x in src:` / `yield body` (no arguments, no decorators); None otherwise"""
+    import ast
+    if not (isinstance(node, ast.Module) and len(node.body) == 1 and isinstance(node.body[0], ast.FunctionDef)):
+        return None
+    f = node.body[0]
+    a = f.args
+    if f.decorator_list or a.args or a.posonlyargs or a.kwonlyargs or a.vararg or a.kwarg or len(f.body) != 1:
+        return None
+    loop = f.body[0]
+    if not (isinstance(loop, ast.For) and isinstance(loop.target, ast.Name) and not loop.orelse and len(loop.body) == 1):
+        return None
+    y = loop.body[0]
+    if not (isinstance(y, ast.Expr) and isinstance(y.value, ast.Yield) and y.value.value is not None):
+        return None
+    src, body = wire_expr(loop.iter), wire_expr(y.value.value)
+    if src is None or body is None:
+        return None
+    return [Atom('G'), f.name, loop.target.id, src, body]
 
 
 def wire_attrs_spec(node):
@@ -1190,7 +1219,7 @@ class Image(object):
                 else:
                     out.append(Atom('U'))
             elif kind is EXEC:
-                out.append(Atom('U'))
+                out.append(wire_suite(data.ast) or Atom('U'))
             elif kind is START:
                 if all(isinstance(v, str) for _, v in data[1]):
                     out.append([Atom('O'), evwire.ev(ev)])
